@@ -180,7 +180,7 @@ def run_path(h, cfg):
     return simruns.result_struct(o, r.nodes)
 
 
-DRAWS = ('random', 'expo', 'choice', 'sample', 'binomial', 'truncexp')
+DRAWS = ('random', 'expo', 'choice', 'sample', 'binomial', 'truncexp', 'wchoice')
 
 
 class ReplayStub(RandomStub):
@@ -239,6 +239,9 @@ def install_replay(recorded):
     install_sim(stub, npx)
     if any(e[0] == 'truncexp' for e in recorded):
         sim._truncated_exponential_ = lambda rate, T: stub._next('truncexp')[3]
+    from vlib import gillaw
+    gillaw.REPLAY[0] = stub if any(e[0] == 'wchoice' for e in recorded) else None
+    stub.wchoice_weights = []
     return stub
 
 
